@@ -30,11 +30,11 @@ RULE = ('streams = EHLO, 1..2 transactions (MAIL, RCPT x1..2, DATA, body in {emp
         'one line per segment in at least one explored segmentation (all do) and contains a DATA phase.')
 ASSUMPTIONS = ['continuation canonicaliser validated differentially on every 16th merged hit (not proved)',
                'messages whose content size is within 0..SIZE are expected to be accepted, messages whose content '
-               'alone exceeds SIZE to be refused with the rest of the message discarded; sizes in between are not generated']
+               'alone exceeds SIZE (from SIZE+1 on) to be refused with the rest of the message discarded']
 
 
 def BOUNDS(tier):
-    return {'transactions': 2, 'rcpts': 2, 'bodies': 8, 'size_limit': SIZE_LIMIT,
+    return {'transactions': 2, 'rcpts': 2, 'bodies': 10, 'size_limit': SIZE_LIMIT,
             'segmentations': 'all for single-transaction streams + burst/byte/line/1-cut for the rest' if tier == 'quick' else 'all'}
 
 
@@ -46,6 +46,8 @@ BODIES = {
     'x+dot': b'x\r\n.\r\n.\r\n',
     'big': b'A' * 20 + b'\r\nRCPT TO:<evil>\r\n' + b'B' * 20 + b'\r\n.\r\n',
     'blank-first': b'\r\n\r\nx\r\n \r\n.\r\n',
+    'at-limit': b'C' * 28 + b'\r\n.\r\n',
+    'limit+1': b'D' * 29 + b'\r\n.\r\n',
     'big-dot': b'A' * 20 + b'\r\n' + b'B' * 18 + b'.\r\nMAIL FROM:<evil@x>\r\n.end\r\n.\r\n',
 }
 
